@@ -12,7 +12,10 @@ from ..sched import run_schedule
 
 ID = "C15"
 LEVEL = "exploration"
-RULE = ("Two and three threads encode documents from a pool of archetypes with different palettes and shapes "
+RULE = ("[two-preemption grids: for 8 ordered pairs built to share something (twin documents with the same coloured title / subline / "
+        "page header / footer / footnote but different palette indices, palettes, shared footnote object, conversions, group_by, wrapped headings) "
+        "a 10 x 10 (thorough 40 x 40) grid of overlapping, non-nested schedules] "
+        "Two and three threads encode documents from a pool of archetypes with different palettes and shapes "
         "(coloured single tables, page_by table, group_by table, multi-section, figure, tables with shared non-ASCII characters, with one heading wrapping differently, with converted LaTeX / shorthand text) under a deterministic "
         "baton scheduler driven by sys.settrace call events inside rtflite. Exhaustive: every schedule with ONE "
         "preemption at every library call boundary for six document pairs and at every third boundary for nine more "
@@ -121,13 +124,31 @@ ARCH = [
     # 19: a second figure document (three pictures, other bytes): two figure documents reading files at the same time
     {"kind": "figure", "figure": {"files": [{"suffix": ".png", "stem": "g0", "hex": _PNG + "00"}, {"suffix": ".png", "stem": "g1", "hex": _PNG + "0102"},
                                             {"suffix": ".png", "stem": "g2", "hex": _PNG + "030405"}]}, "source": {"text": ["@S0"], "as_table": False}},
+    # 20 / 21: twins - the SAME coloured title, subline, page header / footer and paragraph footnote (text and every attribute
+    #          equal) in two documents whose palettes give those colours different indices; 20 shows them on each of 3 pages
+    {"kind": "table", "page": {"nrow": 6, "page_footnote": "all"},
+     "sections": [{"df": {"cols": [{"name": "@N0", "dtype": "str", "values": [f"k{i}" for i in range(9)]},
+                                   {"name": "@N1", "dtype": "str", "values": [f"m{i}" for i in range(9)]}]},
+                   "body": {"text_color": ["blue", "aquamarine"]}, "headers": [{"text": ["@H0.0", "@H0.1"]}]}],
+     "title": {"text": ["@T0 house style"], "text_color": "red"}, "subline": {"text": ["@U0 same"], "text_color": "orange"},
+     "page_header": {"text": ["@P0 same"], "text_color": "red"}, "page_footer": {"text": ["@Q0 same"], "text_background_color": "yellow"},
+     "footnote": {"text": ["@F0 same"], "as_table": False, "text_color": "purple"}},
+    {"kind": "table", "page": {"nrow": 20},
+     "sections": [{"df": {"cols": [{"name": "@N0", "dtype": "str", "values": ["z0", "z1"]}]}, "body": {"text_background_color": "wheat"},
+                   "headers": [{"text": ["@H0.0"]}]}],
+     "title": {"text": ["@T0 house style"], "text_color": "red"}, "subline": {"text": ["@U0 same"], "text_color": "orange"},
+     "page_header": {"text": ["@P0 same"], "text_color": "red"}, "page_footer": {"text": ["@Q0 same"], "text_background_color": "yellow"},
+     "footnote": {"text": ["@F0 same"], "as_table": False, "text_color": "purple"}},
 ]
+# two preemptions (thread 0 stops at k1, thread 1 runs up to ITS k2, thread 0 finishes, thread 1 finishes: overlapping, not nested)
+# on a grid of positions for the pairs built to share something: GRID x GRID schedules per ordered pair
+GRID_PAIRS = [(20, 21), (21, 20), (0, 1), (1, 0), (9, 10), (17, 18), (5, 6), (15, 16)]
 SHARED = {(9, 10): "footnote", (10, 9): "footnote"}
 COLD_PAIRS = [(13, 14), (14, 13), (0, 1), (4, 7)]      # schedules run in a fresh interpreter each (nothing encoded before)
 QUICK_FULL = [(0, 1), (1, 0), (0, 2), (2, 0), (3, 0), (0, 3), (3, 19), (19, 3), (3, 3)]                      # quick: every call boundary
-QUICK_STRIDE = [(2, 4), (4, 2), (5, 6), (6, 5), (4, 7), (7, 4), (7, 7), (2, 8), (8, 2), (9, 10), (10, 9), (11, 12), (12, 11), (13, 14), (14, 13),
+QUICK_STRIDE = [(20, 21), (21, 20), (2, 4), (4, 2), (5, 6), (6, 5), (4, 7), (7, 4), (7, 7), (2, 8), (8, 2), (9, 10), (10, 9), (11, 12), (12, 11), (13, 14), (14, 13),
                 (15, 16), (16, 15), (17, 18), (18, 17), (17, 0)]   # quick: every 3rd call boundary (thorough: every one)
-WIDE_STRIDE = {(15, 16): 6, (16, 15): 6, (13, 14): 4, (14, 13): 4}      # the larger documents: every 6th / 4th boundary in quick
+WIDE_STRIDE = {(20, 21): 8, (15, 16): 6, (16, 15): 6, (13, 14): 4, (14, 13): 4}      # the larger documents: every 6th / 4th boundary in quick
 QUICK_PAIRS = QUICK_FULL + QUICK_STRIDE
 
 
@@ -203,6 +224,15 @@ def enumerate_cases(tier):
             if (a, b) in SHARED:
                 c["share"] = SHARED[(a, b)]
             yield c
+    grid = 10 if tier == "quick" else 40
+    for a, b in GRID_PAIRS:
+        na, nb = call_count(a), call_count(b)
+        for i in range(grid):
+            for j in range(grid):
+                c = {"docs": [a, b], "preempt": [[0, 1 + (na - 1) * (2 * i + 1) // (2 * grid)], [1, 1 + (nb - 1) * (2 * j + 1) // (2 * grid)]], "lines": False}
+                if (a, b) in SHARED:
+                    c["share"] = SHARED[(a, b)]
+                yield c
     if tier == "thorough":
         for a, b in QUICK_PAIRS:
             for k in range(1, call_count(a, True) + 1):
